@@ -1,11 +1,13 @@
 import SshAudit.Driver.Tables
+import SshAudit.Driver.WireOps
 namespace SshAudit.Driver
 
 def badOp : J := .obj [("err", .str "bad-op".toList)]
 
 def dispatch (op : String) (args : List String) : J :=
-  match op, args with
-  | "dump-tables", [] => dumpTables
-  | _, _ => badOp
+  if op = "dump-tables" then dumpTables else
+  match wireOp op args with
+  | some j => j
+  | none => badOp
 
 end SshAudit.Driver
